@@ -15,7 +15,10 @@ def run_models(v: Verdict, models: list[tuple[str, str]], expect_violation: dict
     """(M) model-check the specification itself.  A violation here is a bug of the model,
     i.e. a machinery error, never a verdict about /repo."""
     for module, cfg in models:
-        r = run_tlc(module, cfg, cont=False, timeout=timeout, extra=["-coverage", "1"])
+        # per-action coverage only for the state-machine models (the theorem-style models have a single
+        # trivial action, and expression-level coverage of their recursive operators costs a lot of memory)
+        cov = module in ("MC_Aggregator", "MC_Objects", "MC_Pipeline", "LabelMap", "MC_ResultLazy")
+        r = run_tlc(module, cfg, cont=False, timeout=timeout, extra=["-coverage", "1"] if cov else None)
         v.add_tlc(r)
         # vacuity guard: per-action counts of this model run; actions never taken in ANY model of the
         # check are listed in the evidence (their properties were not exercised on the model)
